@@ -1,5 +1,5 @@
 """C06 — no relaying without the configured credential; users stay separated (DESIGN.md 4/C06)."""
-from ..mir import Callee, last_seg, loc, op_int, op_place
+from ..mir import tymatch, Callee, last_seg, loc, op_int, op_place
 from .common import gates_of_value, returns_variant, success_edge_dominates, err_return_reachable_only, SUCCESS_ARM, err_only, edge_dom, succ_dom
 
 EXPLANATION = (
@@ -251,7 +251,7 @@ def run(ctx):
         ctx.ob("A2", b.defp, "identity-required-iff-supported-and-users", loc(b.sp), ok, "require_eih = support_eih() && user_count() > 0" if ok else "identity requirement no longer depends on the user table")
     # reply encoder key derives from the stored user
     for b in bodies:
-        if (b.impl_self_def or "").endswith("codec::shadowsocks::tcp::AEADCipherCodec") and b.method == "init_payload_encoder" and b.root == b.defp:
+        if tymatch((b.impl_self_def or ""), "codec::shadowsocks::tcp::AEADCipherCodec") and b.method == "init_payload_encoder" and b.root == b.defp:
             encs = [(blk, c, t) for (blk, c, t) in b.calls() if c.target.endswith("aead_2022::new_encoder")]
             ctx.floor("A2", "2022 reply encoder constructions", 2, len(encs))
             n_user = 0
@@ -262,7 +262,7 @@ def run(ctx):
                     n_user += 1
             ctx.ob("A2", b.defp, "reply-key-from-session-user", loc(b.sp), n_user >= 1, "a reply encoder is keyed by the session's authenticated user" if n_user else "no reply encoder is keyed by the authenticated user")
     for b in bodies:
-        if (b.impl_self_def or "").endswith("codec::shadowsocks::udp::AEADCipherCodec") and b.method == "encode_server_packet_aead_2022" and b.root == b.defp:
+        if tymatch((b.impl_self_def or ""), "codec::shadowsocks::udp::AEADCipherCodec") and b.method == "encode_server_packet_aead_2022" and b.root == b.defp:
             ok = False
             for (blk, c, t) in b.calls():
                 if c.target.endswith("aes_encrypt_in_place") or c.method == "get_cipher":
